@@ -153,6 +153,18 @@ CHECKS = {
         note='Trusted: TLC, harness.dslgen; statements with two-origin and/or predicates are excluded (they crash the parser for '
              'reasons owned by C06/C14).',
         design='6/C09'),
+    'C05': dict(
+        technique='TLC exhaustive over the posix registry protocol with a crash between any two file-system operations and inside '
+                  'metadata writes (RegistryImpl.tla); TLC-generated histories replayed on the real registry with a crash injected at '
+                  'every file-system event / write of one operation, fresh-reader views validated by TraceRegistry.tla',
+        text='RegistryImpl.tla models publish and commit one file-system call per step and proves Consistent, ViewIsHistory, '
+             'AppendOnly, OneAtATime for the protocol of the code (and refutes in-place writes). Histories from RegistryOps.tla are '
+             'replayed on posix.Registry / asset.Directory; an audit hook turns each mutating FS call into a crash point and an io.open '
+             'wrapper crashes inside each write; the view of a fresh reader after every step must be the committed history '
+             '(old or complete new item), as decided by TraceRegistry.tla.',
+        note='Trusted: TLC, the audit-hook / io.open crash model (a BaseException before the k-th mutating call), single writer. '
+             'Byte identity of earlier items is checked through content identifiers of tags and states.',
+        design='6/C05'),
 }
 
 NOT_YET = {}
